@@ -2,7 +2,9 @@
 is decoded in place in the publisher's incoming ring; the sequential broker model cannot exhibit a
 ring lap, so both properties also run the concurrent-delivery core, whose `lap` cases stall a fan-out
 behind a subscriber that has stopped reading while the publisher keeps the incoming ring turning
-(three independent seeded changes released the ring bytes before the fan-out had used them)."""
+(three independent seeded changes released the ring bytes before the fan-out had used them), and whose
+`srv` cases overlap several in-process publishes (a seeded change kept Server.Publish's subscriber
+list on the shared Server)."""
 from .props import PROPS, Run, eq_lines
 
 
@@ -15,7 +17,11 @@ def _with_conc(p, quick, thorough):
     p.assumptions = list(p.assumptions) + [
         "ring laps: `conc lap` cases (subscriber stalled until the publishers' writes block, packets of a read block "
         "or more through 32 KiB rings) sample the timing of the receiver refilling the incoming ring against a stalled "
-        "fan-out; byte identity across ring reuse is a memory fact the sequential model does not carry"]
+        "fan-out; byte identity across ring reuse is a memory fact the sequential model does not carry",
+        "overlapping in-process publishes: `conc srv` cases (2-8 goroutines calling Server.Publish at the same time, each on a "
+        "topic of its own, one in-process callback per topic and one network subscriber on all of them) sample what one "
+        "Server.Publish does to another that is still in its fan-out; the sequential broker runs reach the same overlap only "
+        "through republishing callbacks (`srvsubrepub`: a nested Server.Publish from inside a callback)"]
 
 
 for _pid in ('C01', 'C02'):
